@@ -18,6 +18,17 @@ def observe_design(dm):
             "labels": None if dm.common is None else [l for t in dm.common.terms.values() for l in t.labels]}
 
 
+def nan_safe(o):
+    """The same nested structure with every NaN replaced by the string 'nan', so that results compare with ==."""
+    if isinstance(o, float):
+        return "nan" if o != o else o
+    if isinstance(o, (list, tuple)):
+        return [nan_safe(x) for x in o]
+    if isinstance(o, dict):
+        return {k: nan_safe(v) for k, v in o.items()}
+    return o
+
+
 def guarded(fn):
     import warnings
 
@@ -25,7 +36,7 @@ def guarded(fn):
         with warnings.catch_warnings(record=True) as w:
             warnings.simplefilter("always")
             out = fn()
-        return {"ok": out, "warned": sorted({x.category.__name__ for x in w})}
+        return {"ok": nan_safe(out), "warned": sorted({x.category.__name__ for x in w})}
     except Exception as e:  # pylint: disable=broad-except
         return {"exc": type(e).__name__}
 
